@@ -118,3 +118,10 @@ Definition recover_run (tolerant : bool) (now : Z) (via : status) (me : option r
   else reroute_phase now me marked {| rrecs := s1; rqueue := rqueue w |}.
 
 Definition count_in (i : inv) (l : list inv) : nat := length (filter (Nat.eqb i) l).
+
+(* ---- liveness evidence of child workers.  The parent runner reports the heartbeats of its live children from its main loop;
+   `every_iteration` (generated from BaseRunner.run) says whether that happens on every iteration or only behind the
+   atomic-service gate.  The age of a live child's last heartbeat at any instant is bounded by the time between two reports. *)
+From Coq Require Import ZArith.
+Definition child_hb_max_age (every_iteration : bool) (loop_period gate_interval : Z) : Z :=
+  if every_iteration then loop_period else Z.max loop_period gate_interval.
